@@ -12,6 +12,19 @@
 #include <fcppt/reference_comparison.hpp>
 #include <fcppt/reference_hash.hpp>
 #include <fcppt/reference_std_hash.hpp>
+#include <fcppt/reference_to_const.hpp>
+#include <fcppt/unit.hpp>
+#include <fcppt/unit_comparison.hpp>
+#include <fcppt/iterator/make_range.hpp>
+#include <fcppt/iterator/range_comparison.hpp>
+#include <fcppt/iterator/range_impl.hpp>
+#include <fcppt/optional/assign.hpp>
+#include <fcppt/record/get.hpp>
+#include <fcppt/record/set.hpp>
+#include <fcppt/tuple/get.hpp>
+#include <fcppt/math/vector/arithmetic.hpp>
+#include <fcppt/math/vector/to_dim.hpp>
+#include <fcppt/variant/get_unsafe.hpp>
 #include <fcppt/shared_ptr_hash_impl.hpp>
 #include <fcppt/shared_ptr_impl.hpp>
 #include <fcppt/shared_ptr_std_hash.hpp>
@@ -444,6 +457,9 @@ struct base_tr
   static constexpr bool has_lt = false;
   static constexpr bool has_six = false;
   static constexpr bool has_hash = false;
+  // number of different ways (`routes`) by which make() reaches the same value: constructors, assignment over an
+  // object that held something else, element-wise writes, erase after insert …  The value model does not see the route.
+  static constexpr unsigned routes = 1;
   template <typename T>
   static std::string extra(T const &, T const &)
   {
@@ -455,26 +471,72 @@ struct opt_tr : base_tr
 {
   using type = fcppt::optional::object<int>;
   static constexpr bool has_lt = true;
-  static std::optional<type> make(V const &l)
+  static constexpr unsigned routes = 3;
+  static std::optional<type> make(V const &l, unsigned route = 0)
   {
-    if (l.empty())
-      return type{};
-    if (l.size() == 1)
-      return type{static_cast<int>(l[0])};
-    return std::nullopt;
+    if (l.size() > 1)
+      return std::nullopt;
+    type const direct{l.empty() ? type{} : type{static_cast<int>(l[0])}};
+    switch (route % routes)
+    {
+    case 0:
+      return direct;
+    case 1:
+    {
+      type r{77}; // copy-assigned over an object that holds something else
+      r = direct;
+      return r;
+    }
+    default:
+    {
+      type r{};
+      if (l.empty())
+      {
+        r = type{5};
+        r = type{}; // emptied again: the storage still holds the old bytes
+      }
+      else
+      {
+        int &x = fcppt::optional::assign(r, static_cast<int>(l[0]) ^ 1);
+        x ^= 1; // through the reference handed out by assign
+      }
+      return r;
+    }
+    }
   }
 };
 
 struct eith_tr : base_tr
 {
   using type = fcppt::either::object<long, int>; // failure: long, success: int
-  static std::optional<type> make(V const &l)
+  static constexpr unsigned routes = 3;
+  static std::optional<type> make(V const &l, unsigned route = 0)
   {
     if (l.size() != 2 || l[0] < 0 || l[0] > 1)
       return std::nullopt;
-    if (l[0] == 0)
-      return type{static_cast<long>(l[1])};
-    return type{static_cast<int>(l[1])};
+    type const direct{l[0] == 0 ? type{static_cast<long>(l[1])} : type{static_cast<int>(l[1])}};
+    switch (route % routes)
+    {
+    case 0:
+      return direct;
+    case 1:
+    {
+      // assigned over an object holding the OTHER side with the same number
+      type r{l[0] == 0 ? type{static_cast<int>(l[1])} : type{static_cast<long>(l[1])}};
+      r = direct;
+      return r;
+    }
+    default:
+    {
+      // the same side with another number, then written through get_*_unsafe
+      type r{l[0] == 0 ? type{static_cast<long>(l[1] ^ 1)} : type{static_cast<int>(l[1] ^ 1)}};
+      if (l[0] == 0)
+        r.get_failure_unsafe() = static_cast<long>(l[1]);
+      else
+        r.get_success_unsafe() = static_cast<int>(l[1]);
+      return r;
+    }
+    }
   }
 };
 
@@ -482,15 +544,42 @@ struct var_tr : base_tr
 {
   using type = fcppt::variant::object<int, long, short>;
   static constexpr bool has_lt = true;
-  static std::optional<type> make(V const &l)
+  static constexpr unsigned routes = 3;
+  static type direct(long long i, long long x)
+  {
+    if (i == 0)
+      return type{static_cast<int>(x)};
+    if (i == 1)
+      return type{static_cast<long>(x)};
+    return type{static_cast<short>(x)};
+  }
+  static std::optional<type> make(V const &l, unsigned route = 0)
   {
     if (l.size() != 2 || l[0] < 0 || l[0] > 2)
       return std::nullopt;
-    if (l[0] == 0)
-      return type{static_cast<int>(l[1])};
-    if (l[0] == 1)
-      return type{static_cast<long>(l[1])};
-    return type{static_cast<short>(l[1])};
+    switch (route % routes)
+    {
+    case 0:
+      return direct(l[0], l[1]);
+    case 1:
+    {
+      // assigned over an object that holds a different alternative with the same number (inactive alternative)
+      type r{direct((l[0] + 1) % 3, l[1])};
+      r = direct(l[0], l[1]);
+      return r;
+    }
+    default:
+    {
+      type r{direct(l[0], l[1] ^ 1)};
+      if (l[0] == 0)
+        r.get_unsafe<int>() = static_cast<int>(l[1]);
+      else if (l[0] == 1)
+        r.get_unsafe<long>() = static_cast<long>(l[1]);
+      else
+        r.get_unsafe<short>() = static_cast<short>(l[1]);
+      return r;
+    }
+    }
   }
   static std::string extra(type const &a, type const &b)
   {
@@ -502,11 +591,18 @@ struct var_tr : base_tr
 struct tup_tr : base_tr
 {
   using type = fcppt::tuple::object<int, long, short>;
-  static std::optional<type> make(V const &l)
+  static constexpr unsigned routes = 2;
+  static std::optional<type> make(V const &l, unsigned route = 0)
   {
     if (l.size() != 3)
       return std::nullopt;
-    return type{static_cast<int>(l[0]), static_cast<long>(l[1]), static_cast<short>(l[2])};
+    if (route % routes == 0)
+      return type{static_cast<int>(l[0]), static_cast<long>(l[1]), static_cast<short>(l[2])};
+    type r{9, 9L, static_cast<short>(9)};
+    fcppt::tuple::get<2>(r) = static_cast<short>(l[2]);
+    fcppt::tuple::get<0>(r) = static_cast<int>(l[0]);
+    fcppt::tuple::get<1>(r) = static_cast<long>(l[1]);
+    return r;
   }
 };
 
@@ -514,11 +610,17 @@ struct arr_tr : base_tr
 {
   using type = fcppt::array::object<int, 3>;
   static constexpr bool has_hash = true;
-  static std::optional<type> make(V const &l)
+  static constexpr unsigned routes = 2;
+  static std::optional<type> make(V const &l, unsigned route = 0)
   {
     if (l.size() != 3)
       return std::nullopt;
-    return type{static_cast<int>(l[0]), static_cast<int>(l[1]), static_cast<int>(l[2])};
+    if (route % routes == 0)
+      return type{static_cast<int>(l[0]), static_cast<int>(l[1]), static_cast<int>(l[2])};
+    type r{9, 9, 9};
+    for (std::size_t i = 3; i-- > 0;)
+      r.get_unsafe(i) = static_cast<int>(l[i]);
+    return r;
   }
   static std::size_t hash(type const &v, bool &) { return fcppt::range::hash<type>{}(v); }
 };
@@ -526,11 +628,18 @@ struct arr_tr : base_tr
 struct earr_tr : base_tr
 {
   using type = fcppt::enum_::array<e3, int>;
-  static std::optional<type> make(V const &l)
+  static constexpr unsigned routes = 2;
+  static std::optional<type> make(V const &l, unsigned route = 0)
   {
     if (l.size() != 3)
       return std::nullopt;
-    return type{static_cast<int>(l[0]), static_cast<int>(l[1]), static_cast<int>(l[2])};
+    if (route % routes == 0)
+      return type{static_cast<int>(l[0]), static_cast<int>(l[1]), static_cast<int>(l[2])};
+    type r{9, 9, 9};
+    r[e3::v2] = static_cast<int>(l[2]);
+    r[e3::v0] = static_cast<int>(l[0]);
+    r[e3::v1] = static_cast<int>(l[1]);
+    return r;
   }
 };
 
@@ -540,11 +649,17 @@ struct rec_tr : base_tr
   using el1 = fcppt::record::element<label1, long>;
   using type = fcppt::record::object<el0, el1>;
   using perm = fcppt::record::object<el1, el0>;
-  static std::optional<type> make(V const &l)
+  static constexpr unsigned routes = 2;
+  static std::optional<type> make(V const &l, unsigned route = 0)
   {
     if (l.size() != 2)
       return std::nullopt;
-    return type{label0{} = static_cast<int>(l[0]), label1{} = static_cast<long>(l[1])};
+    if (route % routes == 0)
+      return type{label0{} = static_cast<int>(l[0]), label1{} = static_cast<long>(l[1])};
+    type r{label1{} = 9L, label0{} = 9};
+    fcppt::record::set<label1>(r, static_cast<long>(l[1]));
+    fcppt::record::set<label0>(r, static_cast<int>(l[0]));
+    return r;
   }
   static std::string extra(type const &a, type const &b)
   {
@@ -564,11 +679,16 @@ struct sti_tr : base_tr
   static constexpr bool has_lt = true;
   static constexpr bool has_six = true;
   static constexpr bool has_hash = true;
-  static std::optional<type> make(V const &l)
+  static constexpr unsigned routes = 2;
+  static std::optional<type> make(V const &l, unsigned route = 0)
   {
     if (l.size() != 1)
       return std::nullopt;
-    return type{static_cast<int>(l[0])};
+    if (route % routes == 0)
+      return type{static_cast<int>(l[0])};
+    type r{fcppt::no_init{}};
+    r.get() = static_cast<int>(l[0]);
+    return r;
   }
   static std::size_t hash(type const &v, bool &ok)
   {
@@ -579,15 +699,67 @@ struct sti_tr : base_tr
 struct recu_tr : base_tr
 {
   using type = fcppt::recursive<int>;
-  static std::optional<type> make(V const &l)
+  static constexpr unsigned routes = 5;
+  static std::optional<type> make(V const &l, unsigned route = 0)
   {
     if (l.size() != 1)
       return std::nullopt;
-    if (l[0] % 2 == 0)
+    int const x = static_cast<int>(l[0]);
+    switch (route % routes)
+    {
+    case 0:
       return fcppt::make_recursive(static_cast<int>(l[0]));
-    return type{static_cast<int>(l[0])};
+    case 1:
+      return type{x}; // const lvalue constructor
+    case 2:
+    {
+      type const src{x};
+      type r{src}; // copy constructor: a new object
+      return r;
+    }
+    case 3:
+    {
+      type const src{x};
+      type r{x ^ 1};
+      r = src;  // copy assignment over another value
+      type &self = r;
+      r = self; // self-assignment keeps the value
+      return r;
+    }
+    default:
+    {
+      type src{x};
+      type r{x ^ 1};
+      r = std::move(src); // move assignment
+      r.get() ^= 1;       // writing through get()
+      r.get() ^= 1;
+      return r;
+    }
+    }
   }
 };
+
+template <typename T, std::size_t N>
+T make_math(V const &l, std::size_t off)
+{
+  if constexpr (N == 1)
+    return T{static_cast<int>(l[off])};
+  else if constexpr (N == 2)
+    return T{static_cast<int>(l[off]), static_cast<int>(l[off + 1])};
+  else if constexpr (N == 3)
+    return T{static_cast<int>(l[off]), static_cast<int>(l[off + 1]), static_cast<int>(l[off + 2])};
+  else
+    return T{static_cast<int>(l[off]), static_cast<int>(l[off + 1]), static_cast<int>(l[off + 2]), static_cast<int>(l[off + 3])};
+}
+
+template <typename T, std::size_t N>
+T make_math_by_element(V const &l, std::size_t off)
+{
+  T r{fcppt::no_init{}};
+  for (std::size_t i = N; i-- > 0;)
+    r.get_unsafe(i) = static_cast<int>(l[off + i]);
+  return r;
+}
 
 template <typename T, std::size_t N>
 struct mvec_tr : base_tr
@@ -596,14 +768,27 @@ struct mvec_tr : base_tr
   static constexpr bool has_lt = true;
   static constexpr bool has_six = true;
   static constexpr bool has_hash = true;
-  static std::optional<type> make(V const &l)
+  static constexpr unsigned routes = 3;
+  static std::optional<type> make(V const &l, unsigned route = 0)
   {
     if (l.size() != N)
       return std::nullopt;
-    if constexpr (N == 2)
-      return type{static_cast<int>(l[0]), static_cast<int>(l[1])};
-    else
-      return type{static_cast<int>(l[0]), static_cast<int>(l[1]), static_cast<int>(l[2])};
+    switch (route % routes)
+    {
+    case 0:
+      return make_math<type, N>(l, 0);
+    case 1:
+      return make_math_by_element<type, N>(l, 0);
+    default:
+    {
+      V other(l);
+      for (long long &x : other)
+        x = 9 - x;
+      type r{make_math<type, N>(other, 0)};
+      r = make_math<type, N>(l, 0); // assigned over other components
+      return r;
+    }
+    }
   }
   static std::size_t hash(type const &v, bool &) { return std_hash(v); }
   // vector<int,2> only: the right operand once more as a row view of a matrix (different storage type)
@@ -619,63 +804,138 @@ struct mvec_tr : base_tr
       std::string h = "-";
       if (e)
         h = b01(std_hash(a) == std::hash<std::remove_cv_t<decltype(view)>>{}(view));
-      // (the ordering operators do not instantiate for two different storage types: array_less takes one type)
-      return " mix=" + b01(e) + b01(a != view) + b01(view == a) + b01(view != a) + h;
+      // the ordering operators across two storage types (both directions)
+      std::string const ord = b01(a < view) + b01(a > view) + b01(a <= view) + b01(a >= view) + b01(view < a) + b01(view > a) +
+                              b01(view <= a) + b01(view >= a);
+      // a value constructed from the view (converting constructor) is the value
+      type const conv{view};
+      return " mix=" + b01(e) + b01(a != view) + b01(view == a) + b01(view != a) + h + " mixord=" + ord +
+             " conv=" + b01(conv == b && !(conv != b) && !(conv < b) && !(b < conv));
     }
     else
       return "";
   }
 };
 
+using vec1_tr = mvec_tr<fcppt::math::vector::static_<int, 1>, 1>;
 using vec2_tr = mvec_tr<fcppt::math::vector::static_<int, 2>, 2>;
 using vec3_tr = mvec_tr<fcppt::math::vector::static_<int, 3>, 3>;
+using vec4_tr = mvec_tr<fcppt::math::vector::static_<int, 4>, 4>;
 using dim2_tr = mvec_tr<fcppt::math::dim::static_<int, 2>, 2>;
+using dim3_tr = mvec_tr<fcppt::math::dim::static_<int, 3>, 3>;
 
+template <std::size_t R, std::size_t C>
 struct mat_tr : base_tr
 {
-  using type = fcppt::math::matrix::static_<int, 2, 2>;
+  using type = fcppt::math::matrix::static_<int, R, C>;
   static constexpr bool has_hash = true;
-  static std::optional<type> make(V const &l)
+  static constexpr unsigned routes = 2;
+  static std::optional<type> make(V const &l, unsigned route = 0)
   {
-    if (l.size() != 4)
+    if (l.size() != R * C)
       return std::nullopt;
-    return type{
-        fcppt::math::matrix::row(static_cast<int>(l[0]), static_cast<int>(l[1])),
-        fcppt::math::matrix::row(static_cast<int>(l[2]), static_cast<int>(l[3]))};
+    if (route % routes == 0)
+    {
+      auto const row = [&l](std::size_t r)
+      {
+        if constexpr (C == 2)
+          return fcppt::math::matrix::row(static_cast<int>(l[r * C]), static_cast<int>(l[r * C + 1]));
+        else
+          return fcppt::math::matrix::row(
+              static_cast<int>(l[r * C]), static_cast<int>(l[r * C + 1]), static_cast<int>(l[r * C + 2]));
+      };
+      static_assert(R == 2);
+      return type{row(0), row(1)};
+    }
+    type m{fcppt::no_init{}};
+    for (std::size_t r = R; r-- > 0;)
+      for (std::size_t c = 0; c < C; ++c)
+        m.get_unsafe(r).get_unsafe(c) = static_cast<int>(l[r * C + c]);
+    return m;
   }
   static std::size_t hash(type const &v, bool &) { return std_hash(v); }
 };
+using mat22_tr = mat_tr<2, 2>;
+using mat23_tr = mat_tr<2, 3>;
 
+template <std::size_t N>
 struct box_tr : base_tr
 {
-  using type = fcppt::math::box::object<int, 2>;
+  using type = fcppt::math::box::object<int, N>;
+  using vec = typename type::vector;
+  using dim = typename type::dim;
   static constexpr bool has_lt = true;
-  static std::optional<type> make(V const &l)
+  static constexpr unsigned routes = 3;
+  static std::optional<type> make(V const &l, unsigned route = 0)
   {
-    if (l.size() != 4)
+    if (l.size() != 2 * N)
       return std::nullopt;
-    return type{
-        type::vector{static_cast<int>(l[0]), static_cast<int>(l[1])},
-        type::dim{static_cast<int>(l[2]), static_cast<int>(l[3])}};
+    for (std::size_t i = 0; i < N; ++i)
+      if (__builtin_add_overflow_p(static_cast<int>(l[i]), static_cast<int>(l[N + i]), 0))
+        return std::nullopt; // pos + size must be an int (the class stores min and max)
+    switch (route % routes)
+    {
+    case 0:
+      return type{make_math<vec, N>(l, 0), make_math<dim, N>(l, N)};
+    case 1:
+    {
+      // the (min, max) constructor
+      V mx(N);
+      for (std::size_t i = 0; i < N; ++i)
+        mx[i] = l[i] + l[N + i];
+      return type{make_math<vec, N>(l, 0), make_math<vec, N>(mx, 0)};
+    }
+    default:
+    {
+      type r{fcppt::no_init{}};
+      for (std::size_t i = 0; i < N; ++i)
+      {
+        r.max().get_unsafe(i) = static_cast<int>(l[i] + l[N + i]);
+        r.pos().get_unsafe(i) = static_cast<int>(l[i]);
+      }
+      return r;
+    }
+    }
+  }
+  static std::string extra(type const &a, type const &b)
+  {
+    // what == must agree with: the observable components
+    bool const comps = a.pos() == b.pos() && a.max() == b.max() && a.size() == b.size();
+    return std::string{" comps="} + b01(comps);
   }
 };
+using box2_tr = box_tr<2>;
+using box3_tr = box_tr<3>;
 
+template <std::size_t N>
 struct sph_tr : base_tr
 {
-  using type = fcppt::math::sphere::object<int, 2>;
-  static std::optional<type> make(V const &l)
+  using type = fcppt::math::sphere::object<int, N>;
+  using point = typename type::point_type;
+  static constexpr unsigned routes = 2;
+  static std::optional<type> make(V const &l, unsigned route = 0)
   {
-    if (l.size() != 3)
+    if (l.size() != N + 1)
       return std::nullopt;
-    return type{type::point_type{static_cast<int>(l[0]), static_cast<int>(l[1])}, static_cast<int>(l[2])};
+    if (route % routes == 0)
+      return type{make_math<point, N>(l, 0), static_cast<int>(l[N])};
+    V other(l);
+    for (long long &x : other)
+      x = 9 - x;
+    type r{make_math<point, N>(other, 0), static_cast<int>(other[N])};
+    r.radius() = static_cast<int>(l[N]);
+    r.origin() = make_math_by_element<point, N>(l, 0);
+    return r;
   }
 };
+using sph2_tr = sph_tr<2>;
+using sph3_tr = sph_tr<3>;
 
 struct bf_tr : base_tr
 {
   using type = fcppt::container::bitfield::object<e3, std::uint8_t>;
   static constexpr bool has_hash = true;
-  static std::optional<type> make(V const &l)
+  static std::optional<type> make(V const &l, unsigned = 0)
   {
     if (l.size() != 4)
       return std::nullopt;
@@ -715,35 +975,96 @@ struct bf_tr : base_tr
   }
 };
 
+template <std::size_t N>
 struct grid_tr : base_tr
 {
-  using type = fcppt::container::grid::object<int, 2>;
+  using type = fcppt::container::grid::object<int, N>;
+  using gdim = typename type::dim;
+  using gpos = typename type::pos;
   static constexpr bool has_lt = true;
   static constexpr bool has_six = true;
-  static std::optional<type> make(V const &l)
+  static constexpr unsigned routes = 4;
+  static gdim mkdim(V const &l)
   {
-    if (l.size() < 2 || l[0] < 0 || l[1] < 0 || l[0] > 64 || l[1] > 64)
+    gdim d{fcppt::no_init{}};
+    for (std::size_t i = 0; i < N; ++i)
+      d.get_unsafe(i) = static_cast<typename type::size_type>(l[i]);
+    return d;
+  }
+  static std::optional<type> make(V const &l, unsigned route = 0)
+  {
+    if (l.size() < N)
       return std::nullopt;
-    if (l.size() - 2 != static_cast<std::size_t>(l[0] * l[1]))
-      return std::nullopt;
-    type g{type::dim{static_cast<type::size_type>(l[0]), static_cast<type::size_type>(l[1])}, 0};
-    std::size_t k = 2;
-    for (auto &e : g)
+    std::size_t content = 1;
+    for (std::size_t i = 0; i < N; ++i)
     {
-      if (k >= l.size())
+      if (l[i] < 0 || l[i] > 64)
         return std::nullopt;
-      e = static_cast<int>(l[k++]);
+      content *= static_cast<std::size_t>(l[i]);
     }
-    if (k != l.size())
+    if (l.size() - N != content)
       return std::nullopt;
-    return g;
+    gdim const d{mkdim(l)};
+    auto const fill = [&l](type &g)
+    {
+      std::size_t k = N;
+      for (auto &e : g)
+        e = static_cast<int>(l[k++]);
+    };
+    switch (route % routes)
+    {
+    case 0:
+    {
+      type g{d, 0};
+      fill(g);
+      return g;
+    }
+    case 1:
+      // initialised by a function of the position (x runs fastest)
+      return type{d, [&l, &d](gpos const &p)
+                  {
+                    std::size_t idx = 0, stride = 1;
+                    for (std::size_t i = 0; i < N; ++i)
+                    {
+                      idx += static_cast<std::size_t>(p.get_unsafe(i)) * stride;
+                      stride *= static_cast<std::size_t>(d.get_unsafe(i));
+                    }
+                    return static_cast<int>(l[N + idx]);
+                  }};
+    case 2:
+    {
+      // copy-assigned over a larger grid with other content
+      V big(N, 3);
+      type g{mkdim(big), 7};
+      type src{d, 0};
+      fill(src);
+      g = src;
+      return g;
+    }
+    default:
+    {
+      // move-assigned over a default-constructed (empty) grid, then swapped twice
+      type g{};
+      type src{d, 8};
+      fill(src);
+      g = std::move(src);
+      type other{d, 5};
+      g.swap(other);
+      swap(g, other);
+      return g;
+    }
+    }
   }
 };
+using grid1_tr = grid_tr<1>;
+using grid2_tr = grid_tr<2>;
+using grid3_tr = grid_tr<3>;
 
 struct tree_tr : base_tr
 {
   using type = fcppt::container::tree::object<int>;
-  static bool parse(V const &l, std::size_t &pos, type &node, unsigned depth)
+  static constexpr unsigned routes = 3;
+  static bool parse(V const &l, std::size_t &pos, type &node, unsigned depth, unsigned route)
   {
     // node already carries its value; read the number of children and the children
     if (depth > 64 || pos >= l.size())
@@ -751,35 +1072,76 @@ struct tree_tr : base_tr
     long long const k = l[pos++];
     if (k < 0 || k > 64)
       return false;
+    std::vector<type> kids;
     for (long long i = 0; i < k; ++i)
     {
       if (pos >= l.size())
         return false;
       type child{static_cast<int>(l[pos++])};
-      if (!parse(l, pos, child, depth + 1))
+      if (!parse(l, pos, child, depth + 1, route))
         return false;
-      if (i % 2 == 0)
-        node.push_back(std::move(child));
-      else
-      {
-        // through the value overload when the child is a leaf
-        if (child.empty())
-          node.push_back(child.value());
+      kids.push_back(std::move(child));
+    }
+    if (route == 0)
+    {
+      for (std::size_t i = 0; i < kids.size(); ++i)
+        if (i % 2 == 1 && kids[i].empty())
+          node.push_back(kids[i].value()); // through the value overload when the child is a leaf
         else
-          node.push_back(std::move(child));
+          node.push_back(std::move(kids[i]));
+    }
+    else if (route == 1)
+    {
+      // back to front with push_front
+      for (std::size_t i = kids.size(); i-- > 0;)
+        if (i % 2 == 0 && kids[i].empty())
+          node.push_front(kids[i].value());
+        else
+          node.push_front(std::move(kids[i]));
+    }
+    else
+    {
+      // insert in front of end(), with surplus children that are removed again (erase, pop_front, pop_back, release)
+      node.push_back(41);
+      for (auto &kid : kids)
+      {
+        node.insert(node.end(), std::move(kid));
+        node.insert(node.end(), 42);
+        auto last = node.end();
+        --last;
+        if (node.size() % 2 == 0)
+          node.erase(last);
+        else
+          (void)node.release(last);
       }
+      (void)node.pop_front();
+      node.push_back(43);
+      (void)node.pop_back();
     }
     return true;
   }
-  static std::optional<type> make(V const &l)
+  static std::optional<type> make(V const &l, unsigned route = 0)
   {
     if (l.size() < 2)
       return std::nullopt;
     std::size_t pos = 1;
     type root{static_cast<int>(l[0])};
-    if (!parse(l, pos, root, 0) || pos != l.size())
+    if (route % routes == 2)
+    {
+      root.value(static_cast<int>(l[0]) ^ 1);
+      root.value() ^= 1;
+    }
+    if (!parse(l, pos, root, 0, route % routes) || pos != l.size())
       return std::nullopt;
     return root;
+  }
+  // the children of a compared IN PLACE (they have a parent) with b, both ways
+  static std::string extra(type const &a, type const &b)
+  {
+    std::string r = " sub=";
+    for (type const &c : a)
+      r += b01(c == b) + b01(b == c) + b01(c != b) + b01(c == a);
+    return r;
   }
 };
 
@@ -789,12 +1151,61 @@ struct rv_tr : base_tr
   static constexpr bool has_lt = true;
   static constexpr bool has_six = true;
   static constexpr bool has_hash = true;
-  static std::optional<type> make(V const &l)
+  static constexpr unsigned routes = 5;
+  static std::optional<type> make(V const &l, unsigned route = 0)
   {
-    type r{};
+    std::vector<int> v;
     for (long long x : l)
-      r.push_back(static_cast<int>(x));
-    return std::optional<type>{std::move(r)};
+      v.push_back(static_cast<int>(x));
+    switch (route % routes)
+    {
+    case 0:
+    {
+      type r{};
+      for (int x : v)
+        r.push_back(x);
+      return std::optional<type>{std::move(r)};
+    }
+    case 1:
+    {
+      type r(v.begin(), v.end()); // exact capacity
+      return std::optional<type>{std::move(r)};
+    }
+    case 2:
+    {
+      // spare capacity holding stale elements behind size()
+      type r{};
+      r.reserve(16);
+      for (int x : v)
+        r.push_back(x);
+      r.push_back(91);
+      r.push_back(92);
+      r.pop_back();
+      r.pop_back();
+      return std::optional<type>{std::move(r)};
+    }
+    case 3:
+    {
+      // resize up, overwrite, shrink; then erase a surplus element in front
+      type r(v.size() + 3, 93);
+      for (std::size_t i = 0; i < v.size(); ++i)
+        r[i + 1] = v[i];
+      r.resize(v.size() + 1, 0);
+      r.erase(r.begin());
+      return std::optional<type>{std::move(r)};
+    }
+    default:
+    {
+      // built back to front with insert(begin), then moved
+      type r{94, 95};
+      r.clear();
+      for (std::size_t i = v.size(); i-- > 0;)
+        r.insert(r.begin(), v[i]);
+      type moved{std::move(r)};
+      moved.shrink_to_fit();
+      return std::optional<type>{std::move(moved)};
+    }
+    }
   }
   static std::size_t hash(type const &v, bool &) { return fcppt::range::hash<type>{}(v); }
 };
@@ -807,17 +1218,36 @@ struct ref_tr : base_tr
   using type = fcppt::reference<int>;
   static constexpr bool has_lt = true;
   static constexpr bool has_hash = true;
-  static std::optional<type> make(V const &l)
+  static constexpr unsigned routes = 3;
+  static std::optional<type> make(V const &l, unsigned route = 0)
   {
     if (l.size() != 1 || l[0] < 0 || l[0] > 2)
       return std::nullopt;
-    if (l[0] == 1)
-      return type{g_objs[1]};
-    return fcppt::make_ref(g_objs[l[0]]);
+    switch (route % routes)
+    {
+    case 0:
+      return fcppt::make_ref(g_objs[l[0]]);
+    case 1:
+      return type{g_objs[l[0]]};
+    default:
+    {
+      type r{g_objs[(l[0] + 1) % 3]};
+      type const src{g_objs[l[0]]};
+      r = src; // rebinding: the wrapper is assigned, not the referent
+      return r;
+    }
+    }
   }
   static std::size_t hash(type const &v, bool &ok)
   {
     return agree(fcppt::reference_hash<type>{}(v), std_hash(v), ok);
+  }
+  // reference_to_const keeps the referent
+  static std::string extra(type const &a, type const &b)
+  {
+    fcppt::reference<int const> const ca{fcppt::reference_to_const(a)};
+    fcppt::reference<int const> const cb{fcppt::reference_to_const(b)};
+    return " const=" + b01(ca == cb) + b01(ca != cb) + b01(ca < cb) + b01(&ca.get() == &a.get());
   }
 };
 
@@ -826,14 +1256,53 @@ struct sp_tr : base_tr
   using type = fcppt::shared_ptr<int>;
   static constexpr bool has_lt = true;
   static constexpr bool has_hash = true;
-  static std::optional<type> make(V const &l)
+  static constexpr unsigned routes = 3;
+  // i,o: o < 2: stored pointer &g_objs[i], owner o (aliasing constructor; two unrelated owners)
+  //      o = 2: stored pointer null; i = 0: empty (moved-from), i = 1, 2: owner i-1 with a null stored pointer
+  static type direct(long long i, long long o)
   {
-    if (l.size() != 2 || l[0] < 0 || l[0] > 2 || l[1] < 0 || l[1] > 1)
-      return std::nullopt;
-    // two unrelated owners; the stored pointer designates g_objs[i] (aliasing constructor)
     static type const owner0{fcppt::make_shared_ptr<int>(0)};
     static type const owner1{fcppt::make_shared_ptr<int>(1)};
-    return type{l[1] == 0 ? owner0 : owner1, &g_objs[l[0]]};
+    if (o == 2)
+    {
+      if (i == 0)
+      {
+        type from{fcppt::make_shared_ptr<int>(3)};
+        type const to{std::move(from)};
+        return from;
+      }
+      return type{i == 1 ? owner0 : owner1, nullptr};
+    }
+    return type{o == 0 ? owner0 : owner1, &g_objs[i]};
+  }
+  static std::optional<type> make(V const &l, unsigned route = 0)
+  {
+    if (l.size() != 2 || l[0] < 0 || l[0] > 2 || l[1] < 0 || l[1] > 2)
+      return std::nullopt;
+    switch (route % routes)
+    {
+    case 0:
+      return direct(l[0], l[1]);
+    case 1:
+    {
+      type r{direct((l[0] + 1) % 3, (l[1] + 1) % 2)};
+      type const src{direct(l[0], l[1])};
+      r = src; // copy assignment over another pointer
+      type &self = r;
+      r = self;
+      return r;
+    }
+    default:
+    {
+      type src{direct(l[0], l[1])};
+      type r{fcppt::make_shared_ptr<int>(4)};
+      r = std::move(src); // move assignment
+      type other{direct((l[0] + 1) % 3, 0)};
+      r.swap(other);
+      swap(r, other);
+      return r;
+    }
+    }
   }
   static std::size_t hash(type const &v, bool &ok)
   {
@@ -841,6 +1310,32 @@ struct sp_tr : base_tr
     // the hash may not depend on how many owners there are at the moment
     type const another_owner{v};
     return agree(h1, fcppt::shared_ptr_hash<type>{}(v), ok);
+  }
+};
+
+struct unit_tr : base_tr
+{
+  using type = fcppt::unit;
+  static std::optional<type> make(V const &l, unsigned = 0)
+  {
+    if (!l.empty())
+      return std::nullopt;
+    return type{};
+  }
+};
+
+// ranges over the elements of one array: begin i, end j (i <= j <= 2)
+struct itr_tr : base_tr
+{
+  using type = fcppt::iterator::range<int const *>;
+  static constexpr unsigned routes = 2;
+  static std::optional<type> make(V const &l, unsigned route = 0)
+  {
+    if (l.size() != 2 || l[0] < 0 || l[1] > 2 || l[0] > l[1])
+      return std::nullopt;
+    if (route % routes == 0)
+      return type{&g_objs[0] + l[0], &g_objs[0] + l[1]};
+    return fcppt::iterator::make_range(static_cast<int const *>(&g_objs[0] + l[0]), static_cast<int const *>(&g_objs[0] + l[1]));
   }
 };
 
@@ -878,13 +1373,24 @@ struct engine
     return r + Tr::extra(a, b);
   }
 
-  static std::string rel(V const &a, V const &b)
+  static std::string rel(V const &a, V const &b, unsigned ra = 0, unsigned rb = 0)
   {
-    auto const x = Tr::make(a);
-    auto const y = Tr::make(b);
+    auto const x = Tr::make(a, ra);
+    auto const y = Tr::make(b, rb);
     if (!x || !y)
       return "bad-op";
     return obs(*x, *y);
+  }
+
+  // the SAME object on both sides of every operator
+  static std::string self(V const &a, unsigned ra)
+  {
+    auto const x = Tr::make(a, ra);
+    if (!x)
+      return "bad-op";
+    T const &r1 = *x;
+    T const &r2 = *x;
+    return obs(r1, r2);
   }
 
   static void all_lists(unsigned k, V &cur, std::vector<V> &out)
@@ -914,15 +1420,51 @@ struct engine
     return out;
   }
 
-  static std::string rels(unsigned maxlen, V const &a)
+  static std::string rels(unsigned maxlen, V const &a, unsigned ra = 0, unsigned rb = 0)
   {
     if (!Tr::make(a))
       return "bad-op";
     std::vector<V> const d{domain(maxlen)};
     std::uint64_t h = vh::fnv_init;
     for (V const &b : d)
-      h = vh::fnv(h, rel(a, b));
+      h = vh::fnv(h, rel(a, b, ra, rb));
     return "D n=" + std::to_string(d.size()) + " " + vh::hex64(h);
+  }
+
+  static std::string selfs(unsigned maxlen, unsigned ra)
+  {
+    std::vector<V> const d{domain(maxlen)};
+    std::uint64_t h = vh::fnv_init;
+    for (V const &a : d)
+      h = vh::fnv(h, self(a, ra));
+    return "D n=" + std::to_string(d.size()) + " " + vh::hex64(h);
+  }
+
+  // boundary values of the component at position pos: all pairs (u, v), the other components as in base
+  static std::string relb(V const &base, std::size_t pos, unsigned kind)
+  {
+    static long long const b16[] = {-32768, -32767, -257, -256, -129, -128, -1, 0, 1, 127, 128, 255, 256, 32766, 32767};
+    static long long const b32[] = {-2147483647LL - 1, -2147483647LL, -16777217, -16777216, -65537, -65536, -32769, -32768, -1, 0, 1,
+                                    32767, 32768, 65535, 65536, 16777216, 16777217, 2147483646, 2147483647};
+    if (pos >= base.size() || kind > 1 || !Tr::make(base))
+      return "bad-op";
+    std::uint64_t h = vh::fnv_init;
+    auto const run = [&](auto const &vals)
+    {
+      for (long long u : vals)
+        for (long long v : vals)
+        {
+          V a(base), b(base);
+          a[pos] = u;
+          b[pos] = v;
+          h = vh::fnv(h, rel(a, b, static_cast<unsigned>(u & 3), static_cast<unsigned>(v & 1)));
+        }
+    };
+    if (kind == 0)
+      run(b16);
+    else
+      run(b32);
+    return "D " + vh::hex64(h);
   }
 
   struct el
@@ -974,7 +1516,7 @@ struct engine
     std::vector<T> vals;
     vals.reserve(d.size());
     for (V const &v : d)
-      vals.push_back(std::move(*Tr::make(v)));
+      vals.push_back(std::move(*Tr::make(v, static_cast<unsigned>(vals.size())))); // the routes alternate
     std::size_t const n = vals.size();
     std::vector<el> row(n), col(n), mat(n * n);
     for (std::size_t i = 0; i < n; ++i)
@@ -1012,12 +1554,47 @@ struct engine
   {
     if (t[0] == "rel" && t.size() == 4)
       return rel(vh::int_list(t[2]), vh::int_list(t[3]));
+    if (t[0] == "relr" && t.size() == 6)
+    {
+      unsigned long long const ra = vh::to_ull(t[2]), rb = vh::to_ull(t[3]);
+      if (ra > 7 || rb > 7)
+        return "bad-op";
+      return rel(vh::int_list(t[4]), vh::int_list(t[5]), static_cast<unsigned>(ra), static_cast<unsigned>(rb));
+    }
     if (t[0] == "rels" && t.size() == 4)
     {
       unsigned long long const ml = vh::to_ull(t[2]);
       if (ml > 8)
         return "bad-op";
       return rels(static_cast<unsigned>(ml), vh::int_list(t[3]));
+    }
+    if (t[0] == "relsr" && t.size() == 6)
+    {
+      unsigned long long const ml = vh::to_ull(t[2]), ra = vh::to_ull(t[3]), rb = vh::to_ull(t[4]);
+      if (ml > 8 || ra > 7 || rb > 7)
+        return "bad-op";
+      return rels(static_cast<unsigned>(ml), vh::int_list(t[5]), static_cast<unsigned>(ra), static_cast<unsigned>(rb));
+    }
+    if (t[0] == "self" && t.size() == 4)
+    {
+      unsigned long long const ra = vh::to_ull(t[2]);
+      if (ra > 7)
+        return "bad-op";
+      return self(vh::int_list(t[3]), static_cast<unsigned>(ra));
+    }
+    if (t[0] == "selfs" && t.size() == 4)
+    {
+      unsigned long long const ml = vh::to_ull(t[2]), ra = vh::to_ull(t[3]);
+      if (ml > 8 || ra > 7)
+        return "bad-op";
+      return selfs(static_cast<unsigned>(ml), static_cast<unsigned>(ra));
+    }
+    if (t[0] == "relb" && t.size() == 5)
+    {
+      unsigned long long const pos = vh::to_ull(t[3]), kind = vh::to_ull(t[4]);
+      if (pos > 64 || kind > 1)
+        return "bad-op";
+      return relb(vh::int_list(t[2]), static_cast<std::size_t>(pos), static_cast<unsigned>(kind));
     }
     if (t[0] == "tri" && t.size() == 4)
     {
@@ -1102,15 +1679,25 @@ std::string handle(std::vector<std::string> const &t)
     if (ty == "arr") return engine<arr_tr>::handle(t);
     if (ty == "rec") return engine<rec_tr>::handle(t);
     if (ty == "sti") return engine<sti_tr>::handle(t);
+    if (ty == "vec1") return engine<vec1_tr>::handle(t);
     if (ty == "vec2") return engine<vec2_tr>::handle(t);
     if (ty == "vec3") return engine<vec3_tr>::handle(t);
+    if (ty == "vec4") return engine<vec4_tr>::handle(t);
     if (ty == "dim2") return engine<dim2_tr>::handle(t);
-    if (ty == "mat22") return engine<mat_tr>::handle(t);
-    if (ty == "box2") return engine<box_tr>::handle(t);
-    if (ty == "sph2") return engine<sph_tr>::handle(t);
+    if (ty == "dim3") return engine<dim3_tr>::handle(t);
+    if (ty == "mat22") return engine<mat22_tr>::handle(t);
+    if (ty == "mat23") return engine<mat23_tr>::handle(t);
+    if (ty == "box2") return engine<box2_tr>::handle(t);
+    if (ty == "box3") return engine<box3_tr>::handle(t);
+    if (ty == "sph2") return engine<sph2_tr>::handle(t);
+    if (ty == "sph3") return engine<sph3_tr>::handle(t);
     if (ty == "bf3") return engine<bf_tr>::handle(t);
     if (ty == "earr") return engine<earr_tr>::handle(t);
-    if (ty == "grid") return engine<grid_tr>::handle(t);
+    if (ty == "grid") return engine<grid2_tr>::handle(t);
+    if (ty == "grid1") return engine<grid1_tr>::handle(t);
+    if (ty == "grid3") return engine<grid3_tr>::handle(t);
+    if (ty == "unit") return engine<unit_tr>::handle(t);
+    if (ty == "itr") return engine<itr_tr>::handle(t);
     if (ty == "tree") return engine<tree_tr>::handle(t);
     if (ty == "rv") return engine<rv_tr>::handle(t);
     if (ty == "ref") return engine<ref_tr>::handle(t);
